@@ -344,6 +344,10 @@ func (blockchain *Blockchain) BeginBlock(req abciTypes.RequestBeginBlock) abciTy
 		if candidate == nil || candidate.Status == candidates.CandidateStatusOffline || blockchain.stateDeliver.Validators.GetByTmAddress(address) == nil {
 			continue
 		}
+		// a second piece of evidence against the same validator in this block must not cut its unbonding funds again
+		if blockchain.stateDeliver.Validators.GetByTmAddress(address).IsToDrop() {
+			continue
+		}
 
 		blockchain.stateDeliver.FrozenFunds.PunishFrozenFundsWithID(height, height+types.GetUnbondPeriod(), candidate.ID)
 		blockchain.stateDeliver.Validators.PunishByzantineValidator(address)
